@@ -134,15 +134,31 @@ class BodyTaint:
                     yield bi, t, ai, self.taint[l], desc
 
 
+def _callees(b):
+    out = set()
+    for _, t in mir.calls(b):
+        out.add(mir.callee_def(t))
+        out.add(mir.callee(t))
+    return out
+
+
+STR_SINK_NAMES = {"std::ops::Index::index", "std::ops::IndexMut::index_mut", "core::str::<impl str>::get",
+                  "core::str::<impl str>::get_mut", "core::str::<impl str>::get_unchecked"} | {s for s, _ in DIRECT_SINKS}
+
+
 def analyse(bodies):
     """Returns (violations, sink_params, n_sources, n_sinks_checked).
     violations: list of (body, terminator, reasons(set of source descriptions), sink desc)."""
     sink_params = {}
-    # 1. parameter summaries to fixpoint
-    for _ in range(6):
+    bodies = [b for b in bodies if b.mir]
+    callees = {id(b): _callees(b) for b in bodies}
+    # 1. parameter summaries to fixpoint (only bodies that can reach a sink are re-analysed)
+    for _ in range(8):
         changed = False
+        keys = set(sink_params)
         for b in bodies:
-            if not b.mir:
+            cs = callees[id(b)]
+            if not (cs & STR_SINK_NAMES or cs & keys):
                 continue
             bt = BodyTaint(b, sink_params)
             bt.seed_params()
@@ -160,23 +176,20 @@ def analyse(bodies):
     violations = []
     n_sources = 0
     n_sinks = 0
+    keys = set(sink_params)
     for b in bodies:
-        if not b.mir:
-            continue
-        has_src = any(is_char_source(t) for _, t in mir.calls(b))
-        bt = BodyTaint(b, sink_params)
-        if has_src:
-            n_sources += sum(1 for _, t in mir.calls(b) if is_char_source(t))
-        bt.run()
-        hits = list(bt.sink_hits()) if has_src else []
-        # count sink sites for evidence
-        bt2 = BodyTaint(b, sink_params)
-        bt2.seed_params()
+        cs = callees[id(b)]
         for bi, t in mir.calls(b):
             name = mir.callee_def(t)
-            if name in sink_params or mir.callee(t) in sink_params or any(name == s for s, _ in DIRECT_SINKS):
+            if name in keys or mir.callee(t) in keys or name in STR_SINK_NAMES:
                 n_sinks += 1
-        for bi, t, ai, reasons, desc in hits:
+        srcs = [t for _, t in mir.calls(b) if is_char_source(t)]
+        if not srcs:
+            continue
+        n_sources += len(srcs)
+        bt = BodyTaint(b, sink_params)
+        bt.run()
+        for bi, t, ai, reasons, desc in bt.sink_hits():
             rs = {x for x in reasons if not x.startswith("param")}
             if rs:
                 violations.append((b, t, rs, desc))
